@@ -183,6 +183,7 @@ def hygiene(ctx):
     format_templates(ctx, "G", files)
     no_shared_default_writes(ctx, "G", files, allow=set(REGISTRIES))
     yielded_then_mutated(ctx, "G", files)
+    memo_keys(ctx, "G", files)
 
 
 def publication(ctx, rule, modname, qual, live, what):
@@ -255,4 +256,21 @@ def yielded_then_mutated(ctx, rule, files):
                      f"{fi.qual}: `{s.target}` ({s.how}, line {s.line}) may be the very object already handed out by the `yield` at line {getattr(y, 'lineno', '?')}: "
                      f"a caller that collected the earlier results (list(...)) sees that result change afterwards", node=s.node)
     ctx.ob(rule, "generators", f"{n} functions in {len(files)} file(s): no generator mutates an object it has already yielded", file=sorted(files)[0] if files else "")
+    return n
+
+
+def memo_keys(ctx, rule, files):
+    """no memo is keyed by a projection (x.attr, x[i]) of an argument the memoised call receives whole"""
+    from . import memokey
+    files = set(files)
+    n = 0
+    for fi in _funcs_of(ctx.program, files):
+        n += 1
+        for node, cont, key, arg, proj in memokey.findings(fi.node):
+            if proj is None:
+                continue
+            ctx.fail(rule, fi, f"memo-key-projection:{arg}",
+                     f"{fi.qual}: results are remembered in `{cont}` under `{key}`, but the remembered call receives `{arg}` itself; `{proj}` identifies less than `{arg}`, "
+                     f"so a different `{arg}` with the same `{proj}` is served the first one's result", node=node)
+    ctx.ob(rule, "memo keys", f"{n} functions in {len(files)} file(s): no memo key is a projection of a memoised argument", file=sorted(files)[0] if files else "")
     return n
